@@ -300,7 +300,7 @@ func (s *scn) shapeSetup(o opPlan) {
 	if o.RemoteRefs != "" {
 		set("lfs.fetchrecentremoterefs", o.RemoteRefs)
 	}
-	if o.RecentAlways {
+	if o.RecentAlways && !o.AlwaysViaC {
 		set("lfs.fetchrecentalways", "true")
 	}
 }
